@@ -4,6 +4,7 @@ from vlib import Ob
 # whole Init on two triangles.  Bounds are small: the symbolic encoding of this pointer-heavy code is expensive.
 H = 'C13/ct.cc'
 BR = '_ZN5draco11CornerTable21BreakNonManifoldEdgesEv'
+RV = '_ZN5draco24MeshAttributeCornerTable25RecomputeVerticesInternalILb0EEEbPKNS_4MeshEPKNS_14PointAttributeE'
 # push_back on vectors the harness adopted with enough capacity never grows; vector<bool> never leaves its first word
 NOGROW = {'_ZNSt6vectorIN5draco9IndexTypeIjNS0_21CornerIndex_tag_type_EEESaIS3_EE17_M_realloc_insertIJRKS3_EEEvN9__gnu_cxx17__normal_iteratorIPS3_S5_EEDpOT_': 'unreachable',
           '_ZNSt6vectorIN5draco9IndexTypeIjNS0_21VertexIndex_tag_type_EEESaIS3_EE17_M_realloc_insertIJRKS3_EEEvN9__gnu_cxx17__normal_iteratorIPS3_S5_EEDpOT_': 'unreachable',
@@ -31,6 +32,10 @@ OBLIGATIONS = [
   Ob('C13.init_2', H, 'h_init', tier='thorough', unwind=8, defines={'NF': 2, 'NV': 4}, max_alloc=64, stubs=NOGROW, mem_gb=20, unwindset=br_bounds(2, 3),
      bound='the whole construction on EVERY list of 2 triangles over vertex ids 0..3',
      covers='CornerTable::Init = ComputeOppositeCorners + BreakNonManifoldEdges + ComputeVertexCorners, VertexParent, LeftMostCorner'),
+  Ob('C13.attr_vertices', 'C13/attrct.cc', 'h_attr_vertices', tier='quick', unwind=7, unwindset=[RV + '.0:3', RV + '.1:3', RV + '.2:6'], defines={'NF': 2, 'NV': 4}, max_alloc=64, mem_gb=20, timeout=900,
+     stubs={'_ZNSt6vectorIbSaIbEE13_M_insert_auxESt13_Bit_iteratorb': 'unreachable'},
+     bound='ANY base table of 2 faces over <= 4 vertices satisfying the C13 invariants (assumed = asserted by the phase obligations), ANY symmetric set of seam edges',
+     covers='MeshAttributeCornerTable::RecomputeVertices / RecomputeVerticesInternal<false>, SwingLeft/SwingRight/Opposite over seams, LeftMostCorner, num_vertices'),
   Ob('C13.break_4', H, 'h_break', tier='extended', unwind=13, backend='kissat', defines={'NF': 4, 'NV': 5}, max_alloc=64, mem_gb=30, unwindset=br_bounds(4, 5),
      bound='phase 2 from ANY consistent table of 4 triangles over vertex ids 0..4 (not registered: no verdict within the thorough cap)',
      covers='CornerTable::BreakNonManifoldEdges'),
